@@ -34,7 +34,13 @@ func (c *checker) sample(e *sim.Ev) {
 		// C18.3 a follower names only a server that really was leader of its current term
 		l := c.leaders[t1]
 		if l == nil || l.key.s != id {
-			c.violate("C18", "follower-names-non-leader", e.Seq, "%s/%d (follower, term %d) reports leader %q but the leader of term %d is %v", e.S, e.Ep, t1, id, t1, l)
+			sig := "follower-names-non-leader"
+			if c.server(e.S).electNotCandTerm == t1 {
+				// it raised its own term in an election it started after a concurrently handled
+				// heartbeat had already made it a follower of the previous term's leader
+				sig = "follower-names-non-leader-after-heartbeat-raced-election"
+			}
+			c.violate("C18", sig, e.Seq, "%s/%d (follower, term %d) reports leader %q but the leader of term %d is %v", e.S, e.Ep, t1, id, t1, l)
 		}
 	case "s.read":
 		if e.X == "final" {
